@@ -101,12 +101,45 @@ class MeanReg(RegressorMixin, BaseEstimator):
 # data: fixed small exact data sets; pair k = (D1, D2); both labels in both groups
 # ----------------------------------------------------------------------------------------------
 N_ROWS = 20
-N_PAIRS = 3
+N_PAIRS = 6
 _DATA = {}
+# pairs 3-5: D1 and D2 differ in the SET of sensitive-feature values (D2 subset of D1, D2 superset of D1, disjoint), in the
+# number of rows and in the label balance: (groups of D1, groups of D2, rows of D1, rows of D2, P(y=1) in D1, in D2)
+LAYOUTS = {3: ((0, 1, 2), (0, 1), 24, 14, 0.5, 0.3),
+           4: ((0, 1), (0, 1, 2), 16, 26, 0.35, 0.6),
+           5: ((0, 1), (2, 3), 20, 12, 0.5, 0.5)}
+LAYOUT_PAIRS = tuple(sorted(LAYOUTS))
+
+
+def layout_dataset(pair, which, width):
+    groups = LAYOUTS[pair][which - 1]
+    n = LAYOUTS[pair][which + 1]
+    p1 = LAYOUTS[pair][which + 3]
+    r = np.random.RandomState(5000 + 31 * pair + which + 101 * width)
+    X = r.randint(0, 6, size=(n, width)).astype(float)
+    A = np.array([groups[i % len(groups)] for i in range(n)])
+    # label driven by one column (another one in D2), shifted per group, thresholded to the wanted balance
+    col = X[:, which - 1] * (1 if which == 1 else -1) + 1.5 * (A % 2) + r.randint(0, 3, size=n)
+    thr = np.quantile(col, 1 - p1)
+    y = (col > thr).astype(int)
+    for g in groups:                       # both labels in every group (ThresholdOptimizer needs them)
+        rows = np.where(A == g)[0]
+        y[rows[0]], y[rows[1]] = 0, 1
+    if which == 2:
+        X1 = dataset(pair, 1, 3)["X"]
+        for j in range(min(width, 3)):     # no column of D2 has the mean of the same column of D1
+            k = 0
+            while abs(X[:, j].mean() - X1[:, j].mean()) < 1e-9:
+                X[k, j] = (X[k, j] + 1) % 6
+                k += 1
+    yr = (X[:, which - 1] / 8.0 + (A % 2) / 4.0 + r.randint(0, 3, size=n) / 16.0)
+    return {"X": X, "y": y, "A": A, "yr": yr, "id": which, "width": width}
 
 
 def dataset(pair, which, width=3):
     key = (pair, which, width)
+    if key not in _DATA and pair in LAYOUTS:
+        _DATA[key] = layout_dataset(pair, which, width)
     if key not in _DATA:
         # (the second data sets of pairs 0 and 1 are exchanged so that pair 0 combines an exactly separable D1,
         #  automatic nu = 0, with a D2 whose duality gap lies below its own automatic nu: F5c becomes observable)
@@ -146,6 +179,31 @@ def test_groups(pair, width):
     return np.concatenate([dataset(pair, 1, width)["A"], dataset(pair, 2, width)["A"]])
 
 
+def test_blocks(ad, cfg, pair):
+    """[(X, A)]: the rows of D1 and of D2 as prediction inputs; one block if both have the same number of columns, else two"""
+    w1, w2 = ad.widths(cfg, pair)
+    d1, d2 = dataset(pair, 1, w1), dataset(pair, 2, w2)
+    if w1 == w2:
+        return [(np.vstack([d1["X"], d2["X"]]), np.concatenate([d1["A"], d2["A"]]))]
+    return [(d1["X"], d1["A"]), (d2["X"], d2["A"])]
+
+
+def on_blocks(blocks, f):
+    """apply f(X, A) to every block and concatenate the flattened answers.  A block that raises (e.g. the rows of the data
+    set with the other number of columns) contributes a marker derived from the exception kind; if every block raises, the
+    first exception is the answer (an unfitted / broken estimator)."""
+    parts, first = [], None
+    for X, A in blocks:
+        try:
+            parts.append(np.asarray(f(X, A), dtype=float).ravel())
+        except Exception as e:  # noqa: BLE001
+            first = first or e
+            parts.append(np.full(2, -1000.0 - sum(map(ord, type(e).__name__))))
+    if first is not None and len([1 for q in parts if q.size == 2 and q[0] <= -1000.0]) == len(blocks):
+        raise first
+    return np.concatenate(parts)
+
+
 # ----------------------------------------------------------------------------------------------
 # adapters: how to build / fit / probe each estimator class
 # ----------------------------------------------------------------------------------------------
@@ -163,11 +221,16 @@ class Adapter:
     atol = ATOL
     claims_pickle = True
 
-    def widths(self, cfg):
-        return (3, 3)
+    wide_on_layout = True    # pair 4: D2 also has one more feature column (where the estimator / container allows)
+
+    def widths(self, cfg, pair=0):
+        return (3, 4) if (pair == 4 and self.wide_on_layout and self.allows_wide(cfg)) else (3, 3)
+
+    def allows_wide(self, cfg):
+        return True
 
     def data(self, cfg, pair, which):
-        return dataset(pair, which, self.widths(cfg)[which - 1])
+        return dataset(pair, which, self.widths(cfg, pair)[which - 1])
 
     def make(self, cfg):
         raise NotImplementedError
@@ -185,20 +248,44 @@ class Adapter:
     def lean_cfg(self, cfg):
         return "-"
 
+    def lean_name(self, cfg):
+        return self.lean
+
     def rule_bits(self, rules):
         return "-"
 
     def repaired_bits(self):
         return "-"
 
+    # set_params histories: the tracked constructor parameter and its second value
+    alt = ("?", None)
+
+    def make_alt(self, cfg):
+        """a FRESH estimator constructed (not set_params, not clone) with the second value of the tracked parameter"""
+        e = self.make(cfg)
+        params = dict(e.get_params(deep=False))
+        params[self.alt[0]] = self.alt[1]
+        return type(e)(**params)
+
 
 class TOAdapter(Adapter):
     name, lean = "TO", "to"
-    cfgs = ("dp-proba", "eo-sticky", "tpr-df")
-    quick_cfgs = ("dp-proba", "eo-sticky")
+    alt = ("grid_size", 7)
+    cfgs = ("dp-proba", "eo-sticky", "tpr-df", "prefit")
+    quick_cfgs = ("dp-proba", "eo-sticky", "prefit")
+
+    def lean_name(self, cfg):
+        return "topre" if cfg == "prefit" else "to"
 
     def make(self, cfg):
         from fairlearn.postprocessing import ThresholdOptimizer
+        if cfg == "prefit":
+            # the user's own, already fitted estimator (fitted once, on a data set of its own); sticky: a refit would show
+            base = Stump(sticky=True)
+            d0 = dataset(2, 2)
+            base.fit(d0["X"], d0["y"])
+            return ThresholdOptimizer(estimator=base, constraints="demographic_parity", objective="accuracy_score",
+                                      grid_size=20, prefit=True, predict_method="predict_proba")
         if cfg == "dp-proba":
             return ThresholdOptimizer(estimator=Stump(), constraints="demographic_parity",
                                       objective="accuracy_score", grid_size=20, predict_method="predict_proba")
@@ -220,10 +307,17 @@ class TOAdapter(Adapter):
         X, A = self._xa(cfg, d["X"], d["A"])
         return est.fit(X, d["y"], sensitive_features=A)
 
+    def allows_wide(self, cfg):
+        return cfg != "tpr-df"     # named DataFrame columns a, b, c
+
     def probes(self, est, cfg, pair, seed):
-        X, A = self._xa(cfg, test_matrix(pair, 3), test_groups(pair, 3))
-        return {"pmf": lambda: _arr(est._pmf_predict(X, sensitive_features=A)),
-                "predict": lambda: _arr(est.predict(X, sensitive_features=A, random_state=seed))}
+        blocks = [self._xa(cfg, X, A) for X, A in test_blocks(self, cfg, pair)]
+        return {"pmf": lambda: on_blocks(blocks, lambda X, A: _arr(est._pmf_predict(X, sensitive_features=A))),
+                "predict": lambda: on_blocks(blocks, lambda X, A: _arr(est.predict(X, sensitive_features=A, random_state=seed)))}
+
+    def attrs(self, est):
+        # the fitted dictionary's KEY SET: one entry per sensitive-feature value of the data of the last fit
+        return {"interpolation_keys": lambda: _arr(sorted(float(k) for k in est.interpolated_thresholder_.interpolation_dict))}
 
     def lean_cfg(self, cfg):
         return "1"
@@ -231,10 +325,11 @@ class TOAdapter(Adapter):
 
 class CRAdapter(Adapter):
     name, lean = "CR", "cr"
+    alt = ("alpha", 0.25)
     cfgs = ("nd-same", "nd-wide", "df-wide", "df-moved")
     quick_cfgs = ("nd-same", "nd-wide", "df-wide", "df-moved")
 
-    def widths(self, cfg):
+    def widths(self, cfg, pair=0):
         return (3, 3) if cfg in ("nd-same", "df-moved") else (3, 4)
 
     def make(self, cfg):
@@ -258,7 +353,7 @@ class CRAdapter(Adapter):
         return est.fit(self._x(cfg, d["X"], d["id"]))
 
     def probes(self, est, cfg, pair, seed):
-        w1, w2 = self.widths(cfg)
+        w1, w2 = self.widths(cfg, pair)
         X1, X2 = self._x(cfg, dataset(pair, 1, w1)["X"], 1), self._x(cfg, dataset(pair, 2, w2)["X"], 2)
         return {"transform1": lambda: _arr(est.transform(X1)), "transform2": lambda: _arr(est.transform(X2))}
 
@@ -274,6 +369,7 @@ class CRAdapter(Adapter):
 
 class GSAdapter(Adapter):
     name, lean = "GS", "gs"
+    alt = ("constraint_weight", 1.0)
     cfgs = ("dp-stump", "eo-sticky", "bgl-reg")
     quick_cfgs = ("dp-stump", "eo-sticky")
 
@@ -292,12 +388,14 @@ class GSAdapter(Adapter):
         return est.fit(d["X"], y, sensitive_features=d["A"])
 
     def probes(self, est, cfg, pair, seed):
-        X = test_matrix(pair, 3)
-        return {"predict": lambda: _arr(est.predict(X))}
+        blocks = test_blocks(self, cfg, pair)
+        return {"predict": lambda: on_blocks(blocks, lambda X, A: _arr(est.predict(X)))}
 
     def attrs(self, est):
         return {"best_idx": lambda: _arr([est.best_idx_]),
-                "lambda_vecs": lambda: _arr(est.lambda_vecs_.values).ravel()}
+                "lambda_vecs": lambda: _arr(est.lambda_vecs_.values).ravel(),
+                "n_predictors": lambda: _arr([len(est.predictors_), est.lambda_vecs_.shape[0], est.lambda_vecs_.shape[1]]),
+                "lambda_index_groups": lambda: _arr(sorted({float(t[-1]) for t in est.lambda_vecs_.index}))}
 
     def rule_bits(self, rules):
         return rules["F5a"] + rules["F5b.GS"]
@@ -308,6 +406,7 @@ class GSAdapter(Adapter):
 
 class EGAdapter(Adapter):
     name, lean = "EG", "eg"
+    alt = ("max_iter", 5)
     cfgs = ("dp-nuNone", "eo-sticky-nu", "tpr-noLP")
     quick_cfgs = ("dp-nuNone", "eo-sticky-nu")
 
@@ -330,12 +429,15 @@ class EGAdapter(Adapter):
         return est.fit(d["X"], d["y"], sensitive_features=d["A"])
 
     def probes(self, est, cfg, pair, seed):
-        X = test_matrix(pair, 3)
-        return {"pmf": lambda: _arr(est._pmf_predict(X)), "predict": lambda: _arr(est.predict(X, random_state=seed))}
+        blocks = test_blocks(self, cfg, pair)
+        return {"pmf": lambda: on_blocks(blocks, lambda X, A: _arr(est._pmf_predict(X))),
+                "predict": lambda: on_blocks(blocks, lambda X, A: _arr(est.predict(X, random_state=seed)))}
 
     def attrs(self, est):
         return {"weights": lambda: _arr(est.weights_.sort_index().values),
-                "n_oracle_calls": lambda: _arr([est.n_oracle_calls_])}
+                "n_oracle_calls": lambda: _arr([est.n_oracle_calls_]),
+                "n_predictors": lambda: _arr([len(est.predictors_), est.lambda_vecs_.shape[0], est.lambda_vecs_.shape[1]]),
+                "lambda_index_groups": lambda: _arr(sorted({float(t[-1]) for t in est.lambda_vecs_.index}))}
 
     def lean_cfg(self, cfg):
         return "1" if self.nu_given(cfg) else "0"
@@ -349,6 +451,7 @@ class EGAdapter(Adapter):
 
 class ADVAdapter(Adapter):
     name, lean = "ADV", "adv"
+    alt = ("learning_rate", 0.01)
     cfgs = ("clf-dp", "reg-eo-shuffle", "clf-eo-sgd")
     quick_cfgs = ("clf-dp", "reg-eo-shuffle")
     atol = ATOL_TORCH
@@ -376,8 +479,9 @@ class ADVAdapter(Adapter):
         return est.fit(d["X"], y, sensitive_features=d["A"])
 
     def probes(self, est, cfg, pair, seed):
-        X = test_matrix(pair, 3)
-        return {"raw": lambda: _arr(est._raw_predict(X)).ravel(), "predict": lambda: _arr(est.predict(X)).ravel()}
+        blocks = test_blocks(self, cfg, pair)
+        return {"raw": lambda: on_blocks(blocks, lambda X, A: _arr(est._raw_predict(X))),
+                "predict": lambda: on_blocks(blocks, lambda X, A: _arr(est.predict(X)))}
 
     def lean_cfg(self, cfg):
         return "0"   # warm_start=False in every configuration (the property's quantifier)
@@ -389,6 +493,8 @@ class ADVAdapter(Adapter):
         return "1"
 
 
+PARAM_CFG = {"TO": "dp-proba", "CR": "nd-same", "GS": "dp-stump", "EG": "eo-sticky-nu", "ADV": "clf-dp"}
+NU_NONE_CFGS = ("dp-nuNone", "tpr-noLP")     # F5c interferes with the set_params histories: kept out of that family
 ADAPTERS = {a.name: a for a in (TOAdapter(), CRAdapter(), GSAdapter(), EGAdapter(), ADVAdapter())}
 ORDER = ("CR", "TO", "GS", "ADV", "EG")
 
@@ -456,6 +562,12 @@ def params_changed(before, after, same_object):
     return names
 
 
+def nested_fits(est):
+    """how often the object passed as `estimator` has been fitted (the test learners count it)"""
+    b = est.get_params(deep=False).get("estimator")
+    return getattr(b, "n_fits_", None)
+
+
 def nested_state(est):
     """attribute names of the object passed as `estimator` (a mitigator must fit clones, never the user's object)"""
     b = est.get_params(deep=False).get("estimator")
@@ -514,6 +626,21 @@ def probe_rules():
     f = adv.make(cfg)
     adv.fit(f, cfg, adv.data(cfg, 0, 2))
     rules["F5d"] = "1" if same_snapshot(snapshot(adv, e, cfg, 0), snapshot(adv, f, cfg, 0), adv.atol) else "0"
+    # static path found by the lifter (fitHistoryReads CR = ["lookup_"]): `_create_lookup` returns early for 1-d input
+    # without setting `lookup_`.  It is dead iff fit on 1-d input raises, fresh and after an earlier fit.
+    dead = True
+    for prior in (False, True):
+        e = cr.make("nd-same")
+        if prior:
+            cr.fit(e, "nd-same", cr.data("nd-same", 0, 1))
+        try:
+            e.fit(np.array([1.0, 2.0, 3.0, 5.0]))
+            dead = False
+        except ValueError:
+            pass
+        except Exception:  # noqa: BLE001
+            dead = False
+    rules["cr1d"] = "dead" if dead else "live"
     _RULES = rules
     return rules
 
@@ -542,6 +669,21 @@ def twins(ad, cfg, pair):
     return tw
 
 
+def twins_alt(ad, cfg, pair):
+    """twins + fresh estimators constructed with the second value of the tracked parameter: D1', D2'"""
+    key = (ad.name, cfg, pair, "alt")
+    if key in _TWINS:
+        return _TWINS[key]
+    tw = dict(twins(ad, cfg, pair))
+    for which in (1, 2):
+        e = ad.make_alt(cfg)
+        ad.fit(e, cfg, ad.data(cfg, pair, which))
+        tw[f"D{which}'"] = snapshot(ad, e, cfg, pair)
+    tw["U'"] = snapshot(ad, ad.make_alt(cfg), cfg, pair)
+    _TWINS[key] = tw
+    return tw
+
+
 def classify(ad, snap, tw):
     names = [n for n, s in tw.items() if same_snapshot(snap, s, ad.atol)]
     if names:
@@ -555,15 +697,16 @@ def classify(ad, snap, tw):
 # ----------------------------------------------------------------------------------------------
 # running a sequence on the implementation
 # ----------------------------------------------------------------------------------------------
-def run_sequence(ad, cfg, pair, ops):
+def run_sequence(ad, cfg, pair, ops, tw=None):
     est = ad.make(cfg)
-    tw = twins(ad, cfg, pair)
+    tw = tw if tw is not None else twins(ad, cfg, pair)
     prev = snapshot(ad, est, cfg, pair)
     trace = []
     for op in ops:
         rec = {"op": op}
         before = est.get_params(deep=False)
         nested_before = nested_state(est)
+        fits_before = nested_fits(est)
         same_object = True
         if op[0] == "f":
             d = ad.data(cfg, pair, int(op[1:]))
@@ -575,7 +718,9 @@ def run_sequence(ad, cfg, pair, ops):
                 rec["detail"] = str(e)[:80]
         elif op[0] == "p":
             seed = int(op[1:])
+            attrs_before = sorted(vars(est))
             a = {k: observe_call(t) for k, t in ad.probes(est, cfg, pair, seed).items()}
+            rec["new_attrs"] = sorted(set(vars(est)) ^ set(attrs_before))
             b = {k: observe_call(t) for k, t in ad.probes(est, cfg, pair, seed).items()}
             oks = [k for k in sorted(a) if a[k][0] == "arr"]
             rec["res"] = "ok" if oks else "raise." + a[sorted(a)[0]][1]
@@ -591,6 +736,13 @@ def run_sequence(ad, cfg, pair, ops):
                 est = pickle.loads(blob)
                 same_object = False
                 rec["res"] = "ok"
+        elif op == "s":
+            try:
+                r = est.set_params(**{ad.alt[0]: ad.alt[1]})
+                rec["res"] = "ok" if r is est else "other"
+            except Exception as e:  # noqa: BLE001
+                rec["res"] = "raise." + type(e).__name__
+                rec["detail"] = str(e)[:80]
         elif op == "c":
             try:
                 est = clone(est)
@@ -605,9 +757,16 @@ def run_sequence(ad, cfg, pair, ops):
         rec["changed"] = params_changed(before, after, same_object)
         if same_object and nested_state(est) != nested_before:
             rec["changed"].append("estimator(mutated)")
+        elif same_object and nested_fits(est) != fits_before:
+            rec["changed"].append("estimator(refitted)")
         if "nu" in rec["changed"]:
             rec["nu_before_none"] = before.get("nu") is None
+        keys0 = set(vars(est))
         cur = snapshot(ad, est, cfg, pair)
+        # the snapshot consists of prediction calls and attribute reads only: it must not add / remove attributes
+        snap_attrs = sorted(set(vars(est)) ^ keys0)
+        if snap_attrs:
+            rec["new_attrs"] = sorted(set(rec.get("new_attrs", [])) | set(snap_attrs))
         rec["same"] = same_snapshot(prev, cur, ad.atol)
         rec["cls"] = classify(ad, cur, tw)
         prev = cur
@@ -618,20 +777,30 @@ def run_sequence(ad, cfg, pair, ops):
 # ----------------------------------------------------------------------------------------------
 # the specification automaton (oracle), independent of the Lean model
 # ----------------------------------------------------------------------------------------------
-def spec_trace(ops):
-    """expected (res, cls) per operation"""
+def spec_trace(ops, prefit=False):
+    """expected (res, cls) per operation.  prefit=True (ThresholdOptimizer around the user's fitted estimator): sklearn.clone
+    drops the fitted state of the nested estimator, after which fit fails like a fresh one around an unfitted estimator."""
     state = None
+    base_fitted = True
     out = []
+
+    def cls():
+        return "U" if state is None else ("B.AttributeError" if state == "broken" else f"D{state}")
     for op in ops:
         if op[0] == "f":
-            state = int(op[1:])
-            out.append(("self", f"D{state}"))
+            if prefit and not base_fitted:
+                state = "broken"
+                out.append(("raise.AttributeError", cls()))
+            else:
+                state = int(op[1:])
+                out.append(("self", cls()))
         elif op[0] == "p":
-            out.append(("ok" if state is not None else "raise.NotFittedError", "U" if state is None else f"D{state}"))
+            out.append(("ok" if isinstance(state, int) else ("raise.NotFittedError" if state is None else "raise.AttributeError"), cls()))
         elif op == "k":
-            out.append(("ok", "U" if state is None else f"D{state}"))
+            out.append(("ok", cls()))
         else:
             state = None
+            base_fitted = False
             out.append(("ok", "U"))
     return out
 
@@ -656,10 +825,21 @@ class CHECK(Check):
                   "rules in today's source (F5a-F5e). Tie: every call sequence up to length 3 (quick) / 4 (thorough) "
                   "over {fit(D1), fit(D2), predict, pickle, clone} per class x configuration on the real estimators, "
                   "compared operation by operation with the compiled machine under the probed rule vector and with "
-                  "the Python specification automaton. PARTIAL: the machines model latches and attribute presence, "
+                  "the Python specification automaton. SOURCE TIE (harness/lifters/lifecycle.py -> Generated/LifecycleSrc.lean): "
+                  "constructor parameters, self-assignments in the closure of fit / the prediction entry points, return "
+                  "expressions of fit, clone provenance of every object that is .fit()-ed, flow-sensitive history reads of fit, "
+                  "__init__-derived attributes and their parameter dependencies, the moment latch, the three adversarial "
+                  "re-initialisation rules and the prefit branch are lifted from the ast; src_* theorems (decide over the "
+                  "generated finite tables) give params_unchanged / fit_returns_self / predict_pure per class, the EG nu "
+                  "exception stays visible as a theorem (F5c), the GridSearch objective_weight staleness (F5f, repaired) as the "
+                  "counter-witness machine; the machines run under "
+                  "the lifted flags (lifesrc.run) and the lifted flags are cross-checked against the runtime probe. "
+                  "set_params histories (Model/LifecycleParams.lean): fit after set_params(p=v) = fresh(p=v).fit for every "
+                  "history iff fit reads no parameter-derived attribute. prefit=True: the user's estimator is never refitted. "
+                  "PARTIAL: the machines model latches and attribute presence, "
                   "not Python object identity, pickle or clone internals, nor the learned numbers.")
     design_ref = "DESIGN.md section 4 (C19), section 5 (F5a-F5e), section 6 (partial)"
-    quick_cases = 1625
+    quick_cases = 1900
     thorough_cases = 600
     # sized for ~80-110 s of work on a quiet machine; the budget only cuts the run on an overloaded one
     quick_budget_s = int(os.environ.get("VERIF_C19_BUDGET_S", "225"))
@@ -672,9 +852,20 @@ class CHECK(Check):
             "sequences of length 4 over all configurations and 3 data pairs until the case budget; thorough: ALL 625 "
             "sequences of length 4 for every configuration (3 per class) + random length 4-5 sequences on the other "
             "data pairs. distinct = distinct (class, configuration, pair, sequence); non-trivial = at least 2 "
-            "operations including a fit. Data: 20 rows, small integer features, binary sensitive feature, both "
-            "labels in both groups; base learners are exact stump / one-feature least squares learners, one "
-            "configuration per class wraps a learner whose *object* is history dependent (detects a missing clone).")
+            "operations including a fit. Data pairs 0-2: 20 rows, small integer features, binary sensitive feature, both "
+            "labels in both groups; pairs 3-5 (layout family, run first: [f1,f2], [f2,f1], [f1,c,f2] (+3 more in thorough) for "
+            "every configuration): the SET of sensitive-feature values differs between D1 and D2 (D2 subset {0,1} of {0,1,2}; "
+            "superset; disjoint {0,1} vs {2,3}), 24/14, 16/26, 20/12 rows, different label balance, and on pair 4 D2 has one more "
+            "feature column where estimator and container allow; predictions are compared on the rows of D1 AND of D2 (per "
+            "block if the widths differ), plus the KEY SETS of the fitted dictionaries (interpolation_dict keys, lambda_vecs_ "
+            "shape and groups, number of predictors); base learners are exact stump / one-feature least squares learners, one "
+            "configuration per class wraps a learner whose *object* is history dependent (detects a missing clone). "
+            "ThresholdOptimizer additionally with prefit=True around a learner fitted once by the harness (refit counter "
+            "observed). Family set_params: [s,f], [s,c,f], [s,k,f], [x,s,y] with x,y in {f1,f2,c,k} (thorough also [s,x,y]) "
+            "and random length-4 sequences containing s, one configuration per class, s = set_params(<tracked parameter>=<second "
+            "value>) (TO grid_size, CR alpha, GS constraint_weight, EG max_iter, adversarial learning_rate), judged against "
+            "fresh estimators CONSTRUCTED with the second value. After every prediction snapshot the attribute set of the "
+            "estimator must be unchanged.")
     explanation = ("state-machine theorems (all histories) + operation-by-operation correspondence with the real "
                    "estimators; oracle = specification automaton + freshly fitted twins compared by predictions / "
                    "_pmf_predict / weights / transform within 1e-9 (torch 1e-6). The model covers latches and flags "
@@ -683,11 +874,18 @@ class CHECK(Check):
     trusted = ("pickle, sklearn.base.clone, copy.deepcopy are not modelled (see explanation)",
                "a fitted model is represented by what it depends on (data id, nu source, training history), equality of "
                "learned numbers is observed on fixed test inputs only",
-               "rule vector per mechanism is probed by replaying the Lean counter-witnesses on fairlearn "
-               "(harness/props/c19.py probe_rules)",
+               "rule vector per mechanism is lifted from the source text (lifters/lifecycle.py) AND probed by replaying the "
+               "Lean counter-witnesses on fairlearn (probe_rules); a disagreement is reported (C19.static_vs_probe)",
+               "lifted data -> behaviour: rebinding `self.<name>` (assignment, augmented assignment, for/with target, del, "
+               "setattr with a literal name) inside the class's own methods is the only way get_params()[name] changes; the "
+               "callees that receive `self` (sklearn validate_data / check_is_fitted / is_classifier, type, user callbacks, the "
+               "backend engine constructor) do not rebind constructor parameters; calls into other classes are not followed "
+               "except ExponentiatedGradient -> _Lagrangian",
+               "set_params(p=v) is setattr(self, p, v) (sklearn BaseEstimator); clone re-runs __init__ on get_params()",
                "torch is deterministic for a fixed random_state on one thread")
     assumptions = ("adversarial estimators are constructed with warm_start=False and an integer random_state",
-                   "prefit=False for ThresholdOptimizer", "every data set contains all classes and both groups",
+                   "ThresholdOptimizer: prefit=False, and one configuration prefit=True around a learner the harness fitted once (its "
+                   "unfitted clone raises AttributeError from predict_proba)", "every data set contains all classes and both groups",
                    "pickling a set-up adversarial estimator is not claimed by the property (result not judged, state is)")
 
     # ---------------------------------------------------------------- generation
@@ -695,6 +893,9 @@ class CHECK(Check):
         return ad.cfgs if tier == "thorough" else ad.quick_cfgs
 
     def generate(self, rng, tier):
+        # the two small families first (a run that is cut by the wall-clock budget still covers them)
+        yield from self.layout_family(tier)
+        yield from self.params_family(tier)
         if tier == "quick":
             for name in ORDER:
                 ad = ADAPTERS[name]
@@ -702,6 +903,14 @@ class CHECK(Check):
                     for ops in itertools.product(ALPHABET, repeat=3):
                         yield {"cls": name, "cfg": cfg, "pair": 0, "ops": list(ops)}
         while True:
+            if rng.random() < 0.12:
+                name = rng.choice(ORDER)
+                cfgp = PARAM_CFG[name] if tier == "quick" else rng.choice([c for c in ADAPTERS[name].cfgs if c not in NU_NONE_CFGS])
+                ops = [rng.choice(["f1", "f2", "f1", "f2", "s", "s", "c", "k", "p3"]) for _ in range(4)]
+                if "s" not in ops:
+                    ops[rng.randrange(3)] = "s"
+                yield {"kind": "params", "cls": name, "cfg": cfgp, "pair": rng.randint(0, N_PAIRS - 1), "ops": ops}
+                continue
             name = rng.choice(ORDER)
             ad = ADAPTERS[name]
             cfg = rng.choice(ad.cfgs)
@@ -711,6 +920,28 @@ class CHECK(Check):
                 o = rng.choice(["f1", "f2", "f1", "f2", "p", "k", "c"])
                 ops.append("p" + str(rng.randint(0, 9)) if o == "p" else o)
             yield {"cls": name, "cfg": cfg, "pair": rng.randint(0, N_PAIRS - 1), "ops": ops}
+
+    def layout_family(self, tier):
+        """refits on data pairs whose group sets / row counts / column counts / label balance differ (pairs 3-5)"""
+        seqs = (["f1", "f2"], ["f2", "f1"], ["f1", "f2", "f1"], ["f1", "c", "f2"], ["f1", "k", "f2"], ["f1", "p5", "f2"])
+        for name in ORDER:
+            ad = ADAPTERS[name]
+            for cfg in self._cfgs(ad, tier):
+                for pair in LAYOUT_PAIRS:
+                    for ops in (seqs if tier == "thorough" else (seqs[0], seqs[1], seqs[3])):
+                        yield {"cls": name, "cfg": cfg, "pair": pair, "ops": list(ops)}
+
+    def params_family(self, tier):
+        """histories with one set_params(p=v): [s,f], [s,c,f], [s,k,f], [x,s,y] (thorough also [s,x,y]), x,y in {f1,f2,c,k}"""
+        for name in ORDER:
+            for ops in (["s", "f1"], ["s", "f2"], ["s", "c", "f2"], ["s", "k", "f1"]):
+                yield {"kind": "params", "cls": name, "cfg": PARAM_CFG[name], "pair": 1, "ops": ops}
+            for ops in itertools.product(["f1", "f2", "c", "k"], repeat=2):
+                positions = (0, 1) if tier == "thorough" else (1,)
+                for pos in positions:
+                    o = list(ops)
+                    o.insert(pos, "s")
+                    yield {"kind": "params", "cls": name, "cfg": PARAM_CFG[name], "pair": 1, "ops": o}
 
     def exhaustive(self, tier):
         for name in ORDER:
@@ -733,6 +964,11 @@ class CHECK(Check):
         rules = probe_rules()
         tw = twins(ad, case["cfg"], case["pair"])
         distinct = not same_snapshot(tw["D1"], tw["D2"], ad.atol) and not same_snapshot(tw["D1"], tw["U"], ad.atol)
+        if case.get("kind") == "params":
+            twa = twins_alt(ad, case["cfg"], case["pair"])
+            trace = run_sequence(ad, case["cfg"], case["pair"], case["ops"], tw=twa)
+            alt_distinct = not same_snapshot(twa["D1"], twa["D1'"], ad.atol) or not same_snapshot(twa["D2"], twa["D2'"], ad.atol)
+            return {"rules": rules, "twins_distinct": distinct, "alt_distinct": alt_distinct, "trace": trace}
         trace = run_sequence(ad, case["cfg"], case["pair"], case["ops"])
         return {"rules": rules, "twins_distinct": distinct, "trace": trace}
 
@@ -740,11 +976,18 @@ class CHECK(Check):
         if "crash" in o:
             return []
         ad = ADAPTERS[case["cls"]]
-        w = ",".join(str(x) for x in ad.widths(case["cfg"]))
+        if case.get("kind") == "params":
+            ops = ",".join(case["ops"])
+            return [f"lifeparam.run {ad.lean} {ops}", f"lifeparam.spec {ops}"]
+        w = ",".join(str(x) for x in ad.widths(case["cfg"], case["pair"]))
         ops = ",".join(case["ops"]) if case["ops"] else "-"
         cfg = ad.lean_cfg(case["cfg"])
-        return [f"lifecycle.run {ad.lean} {ad.rule_bits(o['rules'])} {cfg} {w} {ops}",
-                f"lifecycle.run {ad.lean} {ad.repaired_bits()} {cfg} {w} {ops}"]
+        src_cfg = cfg if ad.lean in ("eg", "adv") else "-"
+        ln = ad.lean_name(case["cfg"])
+        return [f"lifecycle.run {ln} {ad.rule_bits(o['rules'])} {cfg} {w} {ops}",
+                f"lifecycle.run {ln} {ad.repaired_bits()} {cfg} {w} {ops}",
+                f"lifesrc.run {ln} {src_cfg} {w} {ops}",
+                "lifesrc.flags"]
 
     # ---------------------------------------------------------------- judging
     def judge(self, case, o, mo):
@@ -752,11 +995,15 @@ class CHECK(Check):
             return [mk("correspondence", f"harness adapter crashed: {o}", "C19.impl-total")]
         ad = ADAPTERS[case["cls"]]
         name, cfg, ops = case["cls"], case["cfg"], case["ops"]
+        if case.get("kind") == "params":
+            return self.judge_params(case, o, mo)
         probs = []
         if not o["twins_distinct"]:
             return [Problem("harness", f"twins of {name}/{cfg} pair {case['pair']} are not distinguishable")]
-        spec = spec_trace(ops)
-        widths = ad.widths(cfg)
+        prefit = cfg == "prefit"
+        spec = spec_trace(ops, prefit)
+        base_unfitted = False    # prefit: the nested estimator was cloned (= unfitted) since construction
+        widths = ad.widths(cfg, case["pair"])
         tainted = False          # a fit raised: the state the property speaks about is undefined until fit/clone
         fitted_since_clone = []  # data ids fitted (attempted) on this object since construction / clone
         any_fit_before = False
@@ -767,11 +1014,21 @@ class CHECK(Check):
                 probs.append(mk("property", f"{where}: get_params(deep=False) changed: {rec['changed']}",
                                 "C19.params_unchanged", changed=rec["changed"],
                                 nu_before_none=rec.get("nu_before_none", False), **base))
+            if rec.get("new_attrs"):
+                probs.append(mk("property", f"{where}: a prediction call (predict / _pmf_predict / transform on fixed test "
+                                f"inputs) added / removed attributes of the estimator: {rec['new_attrs']}",
+                                "C19.predict_pure", what="attrs", **base))
             if op[0] == "f":
                 d = int(op[1:])
                 refit = bool(fitted_since_clone)
                 width_change = bool(fitted_since_clone) and widths[fitted_since_clone[-1] - 1] != widths[d - 1]
-                if rec["res"].startswith("raise."):
+                if prefit and base_unfitted:
+                    # like a fresh ThresholdOptimizer(prefit=True) around an unfitted estimator: fit must fail
+                    if not rec["res"].startswith("raise."):
+                        probs.append(mk("correspondence", f"{where}: prefit=True around an unfitted (cloned) estimator: fit gave "
+                                        f"{rec['res']}", "C19.prefit_clone_fit", **base))
+                    tainted = True
+                elif rec["res"].startswith("raise."):
                     probs.append(mk("property", f"{where}: fit raised {rec['res'][6:]}: {rec.get('detail', '')}",
                                     "C19.fit_total", exc=rec["res"][6:], detail=rec.get("detail", ""),
                                     prior_fit=any_fit_before, refit=refit, width_change=width_change, **base))
@@ -814,6 +1071,7 @@ class CHECK(Check):
             else:
                 tainted = False
                 fitted_since_clone = []
+                base_unfitted = True
                 if rec["res"] != "ok":
                     probs.append(mk("property", f"{where}: clone failed: {rec['res']}", "C19.clone", what="raise", **base))
                 elif "U" not in rec["cls"]:
@@ -821,9 +1079,32 @@ class CHECK(Check):
                                     "C19.clone", what="state", **base))
         # ---- Lean model ----------------------------------------------------------------------
         if mo is not None:
-            if len(mo) != 2 or "bad-op" in mo:
+            if len(mo) != 4 or "bad-op" in mo:
                 return probs + [Problem("harness", f"driver rejected the case: {mo}")]
-            cur, rep = [[t.split(":") for t in line.split(";")] if line != "-" else [] for line in mo]
+            cur, rep, src = [[t.split(":") for t in line.split(";")] if line != "-" else [] for line in mo[:3]]
+            flags = dict(kv.split("=", 1) for kv in mo[3].split(" "))
+            # (c) the rule vector the lifter derived from the source text == the rule vector probed at run time
+            for key in ("F5a", "F5b.GS", "F5b.EG", "F5c", "F5d", "F5e"):
+                if flags.get(key) != o["rules"].get(key):
+                    probs.append(mk("correspondence",
+                                    f"rule {key}: lifted from the source = {flags.get(key)}, probed on the running code = "
+                                    f"{o['rules'].get(key)} (flags {mo[3]})", "C19.static_vs_probe", cls=name, cfg=cfg))
+                    break
+            if o["rules"].get("cr1d") != "dead":
+                probs.append(mk("correspondence", "CorrelationRemover.fit on 1-d input no longer raises: the static path "
+                                "that leaves lookup_ of an earlier fit in place is live", "C19.cr_1d_path_dead",
+                                cls=name, cfg=cfg))
+            # (d) implementation == machine under the rule flags lifted from the source
+            for i, (op, m, rec) in enumerate(zip(ops, src, o["trace"])):
+                ok_res = m[0] == rec["res"]
+                ok_cls = (m[1] in rec["cls"]) or (m[1] == "X" and rec["cls"] == [])
+                ok_par = (m[2] == "-" and not rec["changed"]) or ([m[2]] == rec["changed"])
+                if not (ok_res and ok_cls and ok_par):
+                    probs.append(mk("correspondence",
+                                    f"op {i} ({op}) of {ops} on {name}/{cfg}: implementation ({rec['res']}, {rec['cls']}, "
+                                    f"{rec['changed']}) vs Lean machine under the SOURCE-DERIVED rules [{mo[3]}]: {m}",
+                                    "C19.src_model_trace", cls=name, cfg=cfg, op=op, index=i))
+                    break
             # (a) repaired machine == specification automaton (theorem <m>_refines_spec, instantiated)
             for i, (op, m, (sres, scls)) in enumerate(zip(ops, rep, spec)):
                 mres = "ok" if (op == "k" and not ad.claims_pickle) else m[0]
@@ -842,8 +1123,78 @@ class CHECK(Check):
                     break
         return probs
 
+    def judge_params(self, case, o, mo):
+        """histories with set_params: after `fit(D)` the estimator must equal a FRESH estimator constructed with the
+        current parameters (D<k> = constructor values, D<k>' = second value of the tracked parameter) fitted on D"""
+        ad = ADAPTERS[case["cls"]]
+        name, cfg, ops = case["cls"], case["cfg"], case["ops"]
+        probs = []
+        p, fitted, stale = 0, None, False      # stale: a set_params since construction / the last clone
+        want = []
+        for i, (op, rec) in enumerate(zip(ops, o["trace"])):
+            where = f"op {i} ({op}) of {ops} on {name}/{cfg} [{ad.alt[0]}: constructor value -> {ad.alt[1]}]"
+            base = dict(cls=name, cfg=cfg, op=op, index=i, family="params")
+            exp = None
+            if op[0] == "f":
+                d = int(op[1:])
+                fitted = (d, p)
+                exp = f"D{d}" + ("'" if p else "")
+                if rec["res"].startswith("raise."):
+                    probs.append(mk("property", f"{where}: fit raised {rec['res'][6:]}: {rec.get('detail', '')}", "C19.fit_total",
+                                    exc=rec["res"][6:], detail=rec.get("detail", ""), prior_fit=True, refit=True,
+                                    width_change=False, **base))
+                else:
+                    if rec["res"] != "self":
+                        probs.append(mk("property", f"{where}: fit returned {rec['res']}", "C19.fit_returns_self", ret=rec["res"], **base))
+                    if rec["changed"]:
+                        probs.append(mk("property", f"{where}: get_params(deep=False) changed during fit: {rec['changed']}",
+                                        "C19.params_unchanged", changed=rec["changed"], nu_before_none=False, **base))
+                    if exp not in rec["cls"]:
+                        probs.append(mk("property",
+                                        f"{where}: fitted estimator differs from a fresh estimator constructed with the current "
+                                        f"parameters and fitted on D{d} (expected twin {exp}, it matches {rec['cls'] or 'no twin'})",
+                                        "C19.set_params_history_free", stale=stale, matches=rec["cls"], **base))
+            elif op == "s":
+                expect_changed = [ad.alt[0]] if p == 0 else []
+                p, stale = 1, True
+                if rec["res"] != "ok" or rec["changed"] != expect_changed:
+                    probs.append(mk("correspondence", f"{where}: set_params gave {rec['res']}, changed parameters {rec['changed']}",
+                                    "C19.set_params_sets", **base))
+            elif op == "c":
+                fitted, stale = None, False
+                if rec["res"] != "ok" or not ({"U", "U'"} & set(rec["cls"])):
+                    probs.append(mk("property", f"{where}: clone failed or is not unfitted ({rec['res']}, {rec['cls']})", "C19.clone",
+                                    what="state", **base))
+            want.append(exp)
+        if mo is not None:
+            if len(mo) != 2 or "bad-op" in mo:
+                return probs + [Problem("harness", f"driver rejected the case: {mo}")]
+            mach, spec = [[t.split(":") for t in line.split(";")] for line in mo]
+            for i, (op, m, sp, exp, rec) in enumerate(zip(ops, mach, spec, want, o["trace"])):
+                if exp is not None and sp[1] != exp:
+                    probs.append(Problem("harness", f"Lean specification {sp} != Python specification {exp} at op {i} of {ops}"))
+                if exp is not None and not rec["res"].startswith("raise."):
+                    # machine says X = "fitted with the new parameter and the stale derived attribute": the learned numbers
+                    # may coincide with a twin, so X constrains nothing; a definite twin must be matched
+                    ok = True if m[1] == "X" else (m[1] == exp and m[1] in rec["cls"])
+                    if not ok:
+                        probs.append(mk("correspondence",
+                                        f"op {i} ({op}) of {ops} on {name}/{cfg}: implementation matches {rec['cls']}, the machine over "
+                                        f"the lifted source (fit reads a parameter-derived attribute: {m[1] == 'X'}) says {m[1]}",
+                                        "C19.params_model_trace", cls=name, cfg=cfg, op=op, index=i))
+                        break
+        return probs
+
     def signature(self, case, o):
         ops = case["ops"]
+        if case.get("kind") == "params":
+            key = ("params", case["cls"], case["cfg"], case["pair"], tuple(ops))
+            tags = [f"cls={case['cls']}", "family=set_params", f"len={len(ops)}"]
+            for rec in o.get("trace", []):
+                tags.append(f"{rec['op'][0]}->{rec['res']}")
+                if rec["op"][0] == "f":
+                    tags.append("state=" + ("|".join(rec["cls"]) or "X"))
+            return key, True, tags
         key = (case["cls"], case["cfg"], case["pair"], tuple(ops))
         tags = [f"cls={case['cls']}", f"cfg={case['cls']}/{case['cfg']}", f"len={len(ops)}", f"pair={case['pair']}"]
         if "trace" in o:
@@ -879,6 +1230,8 @@ class CHECK(Check):
         elif (cls == "EG" and not ADAPTERS["EG"].nu_given(info.get("cfg")) and rel == "C19.history_free"
               and info.get("explained_by_nu")):
             hit = "F5c"
+        # (F5f, GridSearch objective_weight stale after set_params(constraint_weight=..), was repaired in /repo 2f54dd0: no
+        #  predicate any more — a revert is reported as a violation of C19.set_params_history_free)
         # F5d: adversarial, warm_start=False: a second fit on the same object differs from a fresh fit
         elif cls == "ADV" and rel == "C19.history_free" and info.get("refit"):
             hit = "F5d"
